@@ -49,6 +49,8 @@ structure World where
   /-- C05: after `restart p` (no limit): (store key, entries that must be listed again) -/
   mustRecover : List (Nat × List Nat) := []
   faulty   : Bool := false                -- a fetch failure is being injected (`failget`)
+  hadConcurrent : Bool := false           -- concurrent writers ran in this scenario (`cacks`)
+  hadClose : Bool := false                -- a store was closed in this scenario (`closed`)
   lineNo   : Nat := 0
   nFail    : Nat := 0
   nObs     : Nat := 0
@@ -317,7 +319,11 @@ def World.onObs1 (w : World) (toks : List String) : World :=
       let want := if w.dbKind == Kind.kv then lwwReplay ients else docReplay ients
       let prop := if w.dbKind == Kind.kv then "C06" else "C07"
       if showKV want != showKV iidx then
-        w.fail prop "idx" s!"peer {p}: index {showKV iidx} but replay of its log {showNums iv} gives {showKV want}"
+        let w := w.fail prop "idx" s!"peer {p}: index {showKV iidx} but replay of its log {showNums iv} gives {showKV want}"
+        -- C17: after concurrent writers have all returned, their writes must be visible in the view
+        if w.hadConcurrent then
+          w.fail "C17" "visible" s!"peer {p}: after concurrent writes returned the view is {showKV iidx}, the replay of the log {showNums iv} is {showKV want}"
+        else w
       else w
   -- C08: append-only, stable order
   let w := if prev.seen && !isSubseq prev.values iv then
@@ -468,7 +474,10 @@ def World.onDelivered (w : World) (toks : List String) : World :=
   let r := toks.getD 2 ""
   if r == "dropped" || r == "nosub" then w else
   if toks.contains "unserved" then
-    w.fail "C12" "served" s!"peer {q}: the instance no longer takes messages from its direct channel (an earlier message stopped the goroutine that serves it)" else
+    (if w.hadClose then
+      w.fail "C18" "scope" s!"peer {q}: after a store was closed (and Close called again on the old handle) the instance no longer hands direct-channel heads to the store that is open now"
+     else
+      w.fail "C12" "served" s!"peer {q}: the instance no longer takes messages from its direct channel (an earlier message stopped the goroutine that serves it)") else
   if arg toks "quiesce" != "true" then w.fail "C11" "quiesce" s!"peer {q} did not become quiescent after a delivered message" else w
 
 def World.onRestarted (w : World) (toks : List String) : World :=
@@ -565,6 +574,7 @@ def World.step (w : World) (line : String) : World :=
     let p := peerNum (toks.getD 1 "")
     let acks := commaList (arg toks "acks")
     let created := sortNums (acks.filter (· != "err") |>.map entryNum)
+    let w := { w with hadConcurrent := true }
     let w := if acks.contains "err" then w.fail "C17" "ack" s!"peer {p}: a concurrent write failed" else w
     let w := if created.eraseDups.length != created.length then
         w.fail "C17" "distinct" s!"peer {p}: two concurrent writes were acknowledged with the same entry ({arg toks "acks"})" else w
